@@ -451,6 +451,51 @@ example : ∀ x, x ∈ ["s1", "s0"] ↔ x ∈ byServerKeys exFetchCfg := by
   have : byServerKeys exFetchCfg = ["s0", "s1"] := by decide
   intro x; rw [this]; simp [or_comm]
 
+/-! ### several concurrent FetchKeys calls on one DirectKeyFetcher -/
+
+/-- Two concurrent calls do not interact: whatever caller A does — any schedule, any fault pattern of ITS client calls,
+    its context ending at any moment (from then on its calls fail: the oracle of an A-step is arbitrary) — the state of
+    caller B is one that B reaches on its own. -/
+theorem fetch_callers_independent {ca0 cb : Fetch.Cfg} {oa ob : List Server} {p : Two.Pair}
+    (h : Two.Reachable2 ca0 cb oa ob p) : Fetch.Reachable cb ob p.b := by
+  induction h with
+  | init => exact .init
+  | @step p p' m _ hs ih =>
+    cases m with
+    | a ca m =>
+      simp only [Two.step2, Option.map_eq_some_iff] at hs
+      obtain ⟨_, _, rfl⟩ := hs
+      exact ih
+    | b m =>
+      simp only [Two.step2, Option.map_eq_some_iff] at hs
+      obtain ⟨b', hb, rfl⟩ := hs
+      exact .step m ih hb
+
+/-- **Every caller gets the result a sequential execution gives it.**  A caller whose context stays live returns
+    exactly the union of the local entries and of the per-server answers that succeeded — with another call in flight on
+    the same fetcher for the same servers, and whether or not that other caller's context ends before the remote
+    servers answer.  (A fetcher in which a caller takes over the outcome — the error — of another caller's request has no
+    such theorem: op `conc.fetch2` is the correspondence for this one.) -/
+theorem fetch_live_caller_gets_union {ca0 cb : Fetch.Cfg} {oa ob : List Server} (hob : ∀ x, x ∈ ob ↔ x ∈ byServerKeys cb)
+    {p : Two.Pair} (h : Two.Reachable2 ca0 cb oa ob p) (hd : p.b.mainDone = true) :
+    ∀ k, rget k p.b.results = specGet cb k :=
+  fetch_union hob (fetch_callers_independent h) hd
+
+/-- the pair never deadlocks either: while B has not returned, B has an enabled step (whatever state A is in) -/
+theorem fetch_live_caller_no_deadlock {ca0 cb : Fetch.Cfg} {oa ob : List Server} {p : Two.Pair}
+    (h : Two.Reachable2 ca0 cb oa ob p) (hd : p.b.mainDone = false) : ∃ m p', Two.step2 cb p m = some p' := by
+  obtain ⟨m, b', hb⟩ := fetch_no_deadlock (fetch_callers_independent h) hd
+  exact ⟨.b m, { p with b := b' }, by simp [Two.step2, hb]⟩
+
+/-- non-vacuity: A is cancelled at once (all its calls fail), B runs to the end and holds the server's key -/
+example :
+    let c := exFetchCfg
+    let run : Option Two.Pair := ([.b (.worker 0), .b (.worker 1), .a (Two.failing c) (.worker 0), .a (Two.failing c) (.worker 0), .b (.worker 1),
+        .b (.worker 0), .b (.worker 1), .a (Two.failing c) (.worker 0), .b (.worker 0), .b (.worker 1), .b (.worker 0), .b (.worker 0),
+        .b .main] : List Two.Move2).foldlM
+      (fun p m => Two.step2 c p m) ⟨Fetch.init c ["s1", "s0"], Fetch.init c ["s1", "s0"]⟩
+    run.map (fun p => (p.b.mainDone, rget ("s0", "ed25519:a") p.b.results)) = some (true, some ⟨1, 0, 1000⟩) := by decide
+
 end Fetch
 
 /-! ## destinationTripper.getTransport / reaper -/
@@ -505,6 +550,37 @@ theorem transport_lockset_discipline (m : TMove) : ∀ a ∈ taccesses m, a.disc
 
 example : (trun tinit [.get 0 "a", .get 1 "b", .get 2 "a", .reap (· == "a"), .get 1 "a"]).got =
     [(1, "a", 2), (2, "a", 0), (1, "b", 1), (0, "a", 0)] := by decide
+
+/-- `getTransport` returns the cached transport of the name if there is one, a fresh one otherwise, and afterwards the
+    name is cached with exactly that transport: what a caller gets is what the sequential run of the regions gives. -/
+theorem transport_get_spec (s : TState) (tid : Nat) (n : String) :
+    ∃ id, (tstep s (.get tid n)).got.head? = some (tid, n, id) ∧
+      tget n (tstep s (.get tid n)).transports = some id ∧
+      ((tget n s.transports = some id ∧ (tstep s (.get tid n)).transports = s.transports) ∨
+       (tget n s.transports = none ∧ id = s.nextId)) := by
+  cases hg : tget n s.transports with
+  | some id =>
+    refine ⟨id, ?_, ?_, .inl ⟨rfl, ?_⟩⟩ <;> simp [tstep, hg]
+  | none =>
+    refine ⟨s.nextId, ?_, ?_, .inr ⟨rfl, rfl⟩⟩
+    · simp [tstep, hg]
+    · have hnone : s.transports.find? (fun p => p.1 == n) = none := by
+        unfold tget at hg
+        cases hf : s.transports.find? (fun p => p.1 == n) with
+        | none => rfl
+        | some _ => rw [hf] at hg; cases hg
+      simp [tstep, tget, List.find?_append, hnone]
+
+/-- a reaper pass removes exactly the transports it finds idle for longer than the lifetime, and nothing else -/
+theorem transport_reap_spec (s : TState) (dead : String → Bool) (p : String × Nat) :
+    p ∈ (tstep s (.reap dead)).transports ↔ p ∈ s.transports ∧ dead p.1 = false := by
+  simp [tstep, List.mem_filter]
+
+/-- every call is ONE region (the model's step function is total): a run of any sequence of getTransport / reaper calls
+    has a result.  That the real regions finish — in particular that none of them takes transportsMutex again while it
+    holds it — is what `sync_skeleton_transport` pins (the bodies contain no call that locks) and what op `conc.transport`
+    checks on the real code (every move under a timeout, a reaper pass over an idle transport included). -/
+theorem transport_run_total (ms : List TMove) (s : TState) : ∃ s', trun s ms = s' := ⟨_, rfl⟩
 
 end Transport
 
